@@ -212,16 +212,14 @@ void WorkThread::threadProc()
             }
 
             item = popOneTask();    //! 从任务队列中取出优先级最高的任务
+            //! 在同一个临界区内登记为"正在执行"，否则 getTaskStatus()/cancel() 会在这段间隙里误报"未找到"
+            if (item != nullptr)
+                d_->doing_tasks_token.insert(item->token);
         }
 
         //! 后面就是去执行任务，不需要再加锁了
         if (item != nullptr) {
             RECORD_SCOPE();
-            {
-                std::lock_guard<std::mutex> lg(d_->lock);
-                d_->doing_tasks_token.insert(item->token);
-            }
-
             LogDbg("thread pick task %u", item->token.id());
 
             auto exec_time_point = Clock::now();
